@@ -2,7 +2,15 @@
 import glob, os
 import runner as R
 
-Q = lambda run, q, t: q if run.tier == "quick" else t
+def Q(run, q, t):
+    """sizes per tier; "deep" = the escalated search of a quick run whose obligations broke (about 10x quick)"""
+    if run.tier == "quick":
+        return q
+    if run.tier == "deep":
+        if isinstance(q, tuple):
+            return (min(t[0], q[0] * 10),) + tuple(t[1:])
+        return min(t, q * 10)
+    return t
 
 GAPS = {
     "C01": ["Go time arithmetic beyond int64 nanoseconds (year 2262) is outside the model (Int, no overflow)",
@@ -17,8 +25,20 @@ EXPECT = {
     "C05": E("DoCompute", "Cache"), "C07": E("Range"), "C08": E("DoCompute", "Resize"),
     "C10": E("Load", "DoCompute"), "C11": E("DoCompute", "Resize", "Alloc"),
     "C13": E("DoCompute", "Resize", "Range", "Lock"), "C14": E("Load", "DoCompute", "Resize", "Range", "Lock", "Cache", "Ctor"),
-    "C15": E("Ctor"), "C16": E("Load"),
+    "C15": E("Ctor", "Cache"), "C16": E("Load"),
 }
+
+
+# cache-level properties are proved over an *atomic* map (M5); that premise is M4a/M4b, i.e. the xsync protocol
+# skeletons: a change there breaks the premise of these properties too
+PREMISE = {p: E("Load", "DoCompute", "Resize", "Range", "Lock") for p in ("C01", "C02", "C05", "C06", "C07", "C08", "C09", "C12", "C15")}
+
+
+def SEEDS(run, n):
+    """seeds per tier: quick 1, deep (escalated search) 2, thorough n"""
+    if run.tier == "quick":
+        return [run.seed]
+    return [run.seed + i for i in range(2 if run.tier == "deep" else n)]
 
 
 def common(run, modules):
@@ -29,6 +49,10 @@ def common(run, modules):
     for em in EXPECT.get(run.pid, []):
         eok, elog = R.lake_build(run, [em])
         run.oblige("lake build %s (extracted skeleton / call structure / capture facts equal the pinned ones)" % em, eok, elog)
+    for em in PREMISE.get(run.pid, []):
+        if em not in EXPECT.get(run.pid, []):
+            eok, elog = R.lake_build(run, [em])
+            run.oblige("premise (atomic map of the cache-level model = xsync protocol skeleton): lake build %s" % em, eok, elog)
     ok, log = R.lake_build(run, modules)
     run.oblige("lake build %s (all proof obligations of the property's modules)" % " ".join(modules), ok, log)
     if ok:
@@ -48,7 +72,7 @@ def corpus(pid, kind):
 
 def seq_cache_runs(run, harness, twins=("cache", "cacheof"), quick=(1200, 40), thorough=(40000, 60)):
     nseq, nops = Q(run, quick, thorough)
-    seeds = [run.seed] if run.tier == "quick" else [run.seed, run.seed + 1, run.seed + 2, run.seed + 3]
+    seeds = SEEDS(run, 4)
     for twin in twins:
         for sd in seeds:
             R.seq_correspondence(run, harness, "seqcache", "seq_%s_s%d" % (twin, sd),
@@ -71,7 +95,7 @@ def c01(run):
 
 def seq_map_runs(run, layout_h, clock_h, kinds=("map", "mapof"), quick=(14, 300), thorough=(300, 500)):
     nseq, nops = Q(run, quick, thorough)
-    seeds = [run.seed] if run.tier == "quick" else [run.seed, run.seed + 1, run.seed + 2]
+    seeds = SEEDS(run, 3)
     for kind in kinds:
         for sd in seeds:
             first = sd == seeds[0]
@@ -97,7 +121,7 @@ def c11(run):
 
 def sched_runs(run, harness, kinds, focus, tags, quick=(60, 6), thorough=(1500, 10), lin=True, label=""):
     nprog, nsched = Q(run, quick, thorough)
-    seeds = [run.seed] if run.tier == "quick" else [run.seed, run.seed + 1]
+    seeds = SEEDS(run, 2)
     for kind in kinds:
         # corpus first: exact schedules of past failures (F4, F5) for this container kind
         for cf in sorted(glob.glob(os.path.join(R.VERIF, "corpus", "sched", "*_%s.txt" % kind))):
@@ -163,7 +187,7 @@ def c10(run):
         # forced collisions in bucket index, top-hash / h2, and everything (hash modes 1-4 are drawn by the generator)
         seq_map_runs(run, lh, None, quick=(24, 200), thorough=(400, 300))
     if kh:
-        seeds = [run.seed] if run.tier == "quick" else [run.seed + i for i in range(6)]
+        seeds = SEEDS(run, 6)
         for sd in seeds:
             R.native_run(run, "keys_s%d" % sd, [kh, "seed=%d" % sd, "nops=%d" % Q(run, 3000, 12000)], ["BAD", "PANIC", "panic:"])
     return R.finish(run, GAPS.get("C10", []))
@@ -262,7 +286,7 @@ def c12(run):
         seq_cache_runs(run, ch, quick=(600, 40))
         seq_map_runs(run, None, ch, quick=(10, 300))
         nseq, nops = Q(run, (1500, 40), (40000, 60))
-        for sd in ([run.seed] if run.tier == "quick" else [run.seed, run.seed + 1, run.seed + 2]):
+        for sd in SEEDS(run, 3):
             R.twin_differential(run, ch, "seqcache", "twins_cache_s%d" % sd,
                                 ["twin=cache", "seed=%d" % sd, "nseq=%d" % nseq, "nops=%d" % nops],
                                 ["twin=cacheof", "seed=%d" % sd, "nseq=%d" % nseq, "nops=%d" % nops])
@@ -297,7 +321,7 @@ def c14(run):
     run.oblige("go build -race -overlay of the harness from the working tree", rh is not None, err)
     if rh:
         env = dict(R.ENV, GORACE="halt_on_error=1 exitcode=66")
-        seeds = [run.seed] if run.tier == "quick" else [run.seed + i for i in range(4)]
+        seeds = SEEDS(run, 4)
         for sd in seeds:
             R.native_run(run, "race_s%d" % sd, [rh, "race", "seed=%d" % sd, "rounds=%d" % Q(run, 3, 12), "ms=%d" % Q(run, 350, 1500)],
                          ["DATA RACE", "BAD", "panic:", "fatal error"], env=env, timeout=3000)
